@@ -70,7 +70,7 @@ def gen_space(rng, kinds=("RG", "RG", "RG", "U", "HP", "GL", "LM", "PS", "DOF"),
         dofdex = rng.integers(0, ndof, n)
         # every dof must appear: force
         dofdex[:ndof] = np.arange(ndof)
-        dom = I.UnstructuredDomain(n)
+        dom = I.RGSpace(n)
         dd = I.DOFDistributor(I.makeField(dom, dofdex.astype(np.int64)))
         return dd.domain[0], dict(t="DOF", dofdex=dofdex.tolist())
     raise ValueError(k)
